@@ -148,7 +148,7 @@ func (e *Engine) verifyFuncMode(fn *ssa.Function, cfg SolverCfg, mode string) *F
 		if !changed {
 			break
 		}
-		if iter > 12 {
+		if iter > 40 {
 			break
 		}
 	}
